@@ -523,7 +523,11 @@ Fixpoint lz_eqb (a b : list Z) : bool :=
 Fixpoint ascending (l : list Z) : bool :=
   match l with
   | [] => true
-  | x :: rest => forallb (fun y => (x <=? y)%Z) rest && ascending rest
+  | x :: rest =>
+    match rest with
+    | [] => true
+    | y :: _ => (x <=? y)%Z && ascending rest
+    end
   end.
 
 Definition horizon_covers (s e : option Z) (c : comp) (horizon : option Z) (insts : list Z) : bool :=
